@@ -286,8 +286,9 @@ mutual
       ins ([genName n, .matrix] ++ genMatrixRanges rows cols cf ++ [.color, .endMatrix,
            .moveq (.operand .matrixLight) (.reg .operand)])
     | .matrixBlock n body =>
+      -- the name again after `END matrix`: commands inside the block may have loaded other names
       ins [genName n, .matrix] ++ genBlock body ++
-        ins [.endMatrix, .moveq (.operand .matrixLight) (.reg .operand)]
+        ins [.endMatrix, genName n, .moveq (.operand .matrixLight) (.reg .operand)]
 
   def genOperands (k : ActKind) : Operands → Code
     | .nil => []
